@@ -163,6 +163,9 @@ struct Case {
     label: String,
     /// the child exits by itself, but only this many ms after its timeout has expired
     late_exit_ms: Option<u64>,
+    /// while the command runs, every thread it started is hit by a signal whose handler does not
+    /// restart system calls: a blocked read/write of the runner fails with EINTR
+    signal_storm: bool,
 }
 
 // ---------------------------------------------------------------------------
@@ -283,7 +286,7 @@ fn tame_delays(case: &mut Case) {
 }
 
 fn base_case(plan: Plan, po: Pol, pe: Pol, cap: u32, label: &str) -> Case {
-    Case { plan, po, pe, cap, poll_ms: 10, timeout_ms: None, default_timeout_ms: 900_000, delays: Vec::new(), label: label.to_string(), late_exit_ms: None }
+    Case { plan, po, pe, cap, poll_ms: 10, timeout_ms: None, default_timeout_ms: 900_000, delays: Vec::new(), label: label.to_string(), late_exit_ms: None, signal_storm: false }
 }
 
 fn one_write(n: u64) -> StreamPlan {
@@ -291,8 +294,9 @@ fn one_write(n: u64) -> StreamPlan {
 }
 
 const MATRIX: u64 = 9 * 3 * 5;
-const DIRECTED: u64 = 48 + LATE_EXIT;
+const DIRECTED: u64 = 48 + LATE_EXIT + STORM;
 const LATE_EXIT: u64 = 8;
+const STORM: u64 = 6;
 pub const MATRIX_STAGE_COUNT: u64 = MATRIX + DIRECTED;
 
 fn matrix_case(rng: &mut Rng, idx: u64) -> Case {
@@ -317,6 +321,17 @@ fn matrix_case(rng: &mut Rng, idx: u64) -> Case {
         let plan = Plan { out: one_write(a), err: one_write(b), linger_ms: 0, end: End::Exit(code) };
         let mut c = base_case(plan, po, pe, cap, &format!("matrix.{}", ["under", "at", "over"][rel as usize]));
         c.poll_ms = rng.range(1, 20) as u32;
+        return c;
+    }
+    if idx >= MATRIX + 48 + LATE_EXIT {
+        // A read of a captured stream that fails while the child still has output to send must end
+        // the run with an error; what has been read so far is not the stream.
+        let j = idx - MATRIX - 48 - LATE_EXIT;
+        let gap = [300u64, 400, 250][(j % 3) as usize];
+        let mk = || StreamPlan { steps: vec![Step::Write(1000), Step::Sleep(gap), Step::Write(1000), Step::Sleep(gap / 2), Step::Write(500)], patches: Vec::new() };
+        let (po, pe) = if j < 3 { (Pol::Capture, Pol::Null) } else { (Pol::Capture, Pol::Capture) };
+        let mut c = base_case(Plan { out: mk(), err: if pe == Pol::Capture { mk() } else { one_write(10) }, linger_ms: 0, end: End::Exit(0) }, po, pe, 20_000, "directed.read_fails_with_EINTR");
+        c.signal_storm = true;
         return c;
     }
     if idx >= MATRIX + 48 {
@@ -604,6 +619,40 @@ fn classify_capture(stream: &str, other_alphabet: std::ops::RangeInclusive<u8>, 
     )
 }
 
+extern "C" fn storm_handler(_: libc::c_int) {}
+
+fn thread_ids() -> Vec<i32> {
+    std::fs::read_dir("/proc/self/task").map(|d| d.filter_map(|e| e.ok()?.file_name().to_str()?.parse().ok()).collect()).unwrap_or_default()
+}
+
+/// Until `stop` is set: every 2 ms, SIGUSR1 (handler without SA_RESTART) to every thread of this
+/// process that did not exist when the storm began. Returns how many signals were sent.
+fn signal_storm(stop: std::sync::Arc<std::sync::atomic::AtomicBool>) -> std::thread::JoinHandle<u64> {
+    unsafe {
+        let mut sa: libc::sigaction = std::mem::zeroed();
+        sa.sa_sigaction = storm_handler as usize;
+        sa.sa_flags = 0;
+        libc::sigemptyset(&mut sa.sa_mask);
+        libc::sigaction(libc::SIGUSR1, &sa, std::ptr::null_mut());
+    }
+    let before = thread_ids();
+    std::thread::spawn(move || {
+        let me = unsafe { libc::syscall(libc::SYS_gettid) } as i32;
+        let pid = std::process::id() as i32;
+        let mut sent = 0u64;
+        while !stop.load(std::sync::atomic::Ordering::Relaxed) {
+            for tid in thread_ids() {
+                if tid != me && !before.contains(&tid) {
+                    unsafe { libc::syscall(libc::SYS_tgkill, pid, tid, libc::SIGUSR1) };
+                    sent += 1;
+                }
+            }
+            std::thread::sleep(std::time::Duration::from_millis(2));
+        }
+        sent
+    })
+}
+
 fn run_case(ctx: &mut Ctx, e: &Endings, vhelper: &str, scratch: &str, stage: &str, idx: u64, dump: bool) {
     let mut rng = Rng::new(util::case_seed(ctx.seed, &format!("proccap-{stage}"), idx));
     let case = if stage == "matrix" { matrix_case(&mut rng, idx) } else { random_case(&mut rng) };
@@ -630,11 +679,15 @@ fn run_case(ctx: &mut Ctx, e: &Endings, vhelper: &str, scratch: &str, stage: &st
     }
 
     let policy = HostPolicy { allow_process: true, process: caps };
+    let storm_stop = std::sync::Arc::new(std::sync::atomic::AtomicBool::new(false));
+    let storm = if case.signal_storm { Some(signal_storm(storm_stop.clone())) } else { None };
     verif::proc_log_start(&case.delays);
     let t0 = Instant::now();
     let result = util::guarded(|| pipeline::run_source_with_policy(&src, RunCfg::default(), policy));
     let elapsed_ms = t0.elapsed().as_millis() as u64;
     let events = verif::proc_log_take();
+    storm_stop.store(true, std::sync::atomic::Ordering::Relaxed);
+    let storm_signals = storm.map(|h| h.join().unwrap_or(0));
     let real = match result {
         Ok(r) => r,
         Err((msg, loc)) => {
@@ -674,7 +727,7 @@ fn run_case(ctx: &mut Ctx, e: &Endings, vhelper: &str, scratch: &str, stage: &st
     let _ = std::fs::remove_file(&plan_path);
     let _ = std::fs::remove_file(&pid_path);
 
-    if ending == e.spawn {
+    if ending == e.spawn && !case.signal_storm {
         ctx.out.inconclusive(idx, "helper could not be started", json!({"runtime": format!("{:?}", real.runtime.first())}));
         return;
     }
@@ -695,6 +748,31 @@ fn run_case(ctx: &mut Ctx, e: &Endings, vhelper: &str, scratch: &str, stage: &st
     let bad_err = cap_err && std::str::from_utf8(&want_err).is_err();
     let multibyte = !case.plan.out.patches.is_empty() || !case.plan.err.patches.is_empty();
     let hang = case.plan.end == End::Hang;
+    if case.signal_storm {
+        let sent = storm_signals.unwrap_or(0);
+        ctx.out.tag_n("storm.signals_sent", sent);
+        if ending != "ok" {
+            // any runtime error is a correct report of a failed read or write
+            ctx.out.tag(&format!("verdict.storm.error.{ending}"));
+            if sent > 0 {
+                ctx.out.nontrivial(util::hash64(format!("storm|{idx}").as_bytes()));
+            }
+            return;
+        }
+        if real.output.len() != 6 {
+            ctx.out.fail(idx, "result-shape", json!({"output_len": real.output.len()}), replay);
+            return;
+        }
+        let o = &real.output;
+        for (stream, captured, text, want) in [("stdout", case.po == Pol::Capture, &o[3], &case.plan.out.content(1)), ("stderr", case.pe == Pol::Capture, &o[5], &case.plan.err.content(2))] {
+            if captured && text.as_bytes() != &want[..] {
+                ctx.out.fail(idx, &format!("failed-read-reported-as-complete-stream|{stream}"), json!({"got_bytes": text.len(), "written_bytes": want.len(), "signals_sent": sent}), replay);
+                return;
+            }
+        }
+        ctx.out.tag(if sent > 0 { "verdict.storm.complete_although_signalled" } else { "verdict.storm.no_signal_delivered" });
+        return;
+    }
     if let Some(late) = case.late_exit_ms {
         // allowed: the timeout error. An ordinary result means the deadline went unnoticed for
         // `late` ms; that can be a descheduled wait loop once, so the case is run three times.
